@@ -99,7 +99,8 @@ func (c05Driver) Generate(t *tape.Tape, tier string) core.Case {
 	c.Scenario = g.S
 	c.Injected = g.Injected
 	// order trap: an older revision of one module is part of the set as well
-	if name := addOlderRevision(t.Sub("revisions"), g.S, 6); name != "" {
+	rt := t.Sub("revisions")
+	if name := addOlderRevisionInc(rt, g.S, 6, false, rt.Sub("includes").Chance(1, 4)); name != "" {
 		c.Injected = append(c.Injected, "two-revisions-of-"+name)
 	}
 	// order trap: two different modules declare the same namespace (every
